@@ -38,7 +38,7 @@ CHECKS["C07"] = ("model_checking", _TM,
     "variables and n-ary constraints; TLC checks: no handler raised, quiescence implies every computation reported finished, and each "
     "finished report happens at cycle k (or at start for a computation without neighbour). For MGM, Mgm.tla is checked exhaustively "
     "(FinishedAtStop, QuietMeansFinished, no deadlock before the end) and bound to the code by replay.", _N, "DESIGN.md section 4 C07")
-CHECKS["C01"] = ("model_checking", _T,
+CHECKS["C01"] = ("model_checking", "TLC model checking of Dpop.tla (implementation-shaped model of DpopAlgo on the real pseudo-tree: every start and delivery order) with replay of every explored transition on the real computations; " + _T,
     "Executions of the real DPOP computations on the real pseudo-tree, for TLC-generated DCOPs (chains, stars, cycles, n-ary/unary/parallel constraints, "
     "isolated variables, several components; own-value costs; min and max), by reference and through the JSON wire format; TLC checks that quiescence implies "
     "all finished and that the assignment at all-finished is complete and has cost Dcop!Opt.", _N, "DESIGN.md section 4 C01")
